@@ -1,5 +1,5 @@
 """C04 — non-pruning tries never lose or alter history (DESIGN §5 C04)."""
-from ..engine import explore, unjson, HarnessError
+from ..engine import explore, replay_doc
 from ..report import Report
 from ..sharedsys import SharedDbSys
 from .common import run_hex, replay_hex
@@ -58,20 +58,4 @@ def _addB(rep, name, res, sysm):
 def replay(doc):
     if doc["system"]["system"] == "HexSys":
         return replay_hex(doc)
-    outcomes = []
-    for _ in range(2):
-        sysm = SharedDbSys(**doc["system"]["kwargs"])
-        hist = [unjson(e) for e in doc["history"]]
-        snap, model = sysm.initial()[hist[0][1]]
-        found = []
-        for ev in hist[1:]:
-            st = sysm.step(snap, model, ev)
-            found += [v["check"] for v in st.viols]
-            if st.snap is None:
-                break
-            snap = st.snap
-        outcomes.append(found)
-    if outcomes[0] != outcomes[1]:
-        raise HarnessError("replay is not deterministic")
-    print("replayed history; failing checks:", outcomes[0])
-    return doc["check"] in outcomes[0]
+    return replay_doc(lambda: SharedDbSys(**doc["system"]["kwargs"]), doc)
